@@ -148,11 +148,12 @@ def handleInactive (c : Cell) (sid : Nat) : M Cell := do
 /-- `_handle_blacklisted_apps` for one app. -/
 def handleBlacklisted (c : Cell) (aid : Nat) : M Cell := do
   let a ← orAbort (c.app? aid) "blacklist: unknown app"
-  match a.blacklisted, a.server with
-  | true, some sid =>
-    let c1 ← serverRemove c sid aid
-    releaseIdentity c1 aid
-  | _, _ => return c
+  if !a.blacklisted then return c
+  else match a.server with
+    | some sid =>
+      let c1 ← serverRemove c sid aid
+      releaseIdentity c1 aid
+    | none => releaseIdentity c aid
 
 /-- `_fix_invalid_identities` for one app. -/
 def fixInvalidIdentity (c : Cell) (aid : Nat) : M Cell := do
